@@ -81,7 +81,7 @@ class RerunConverges(FlowBase):
         for (t, lin) in requested:
             down = False
             for (t2, lin2) in requested:
-                if t2 != t and t in self._reach(t2):
+                if t2 != t and self._downstream([t, lin], [t2, lin2]):
                     down = True
             if not down and [t, lin] not in keep:
                 keep.append([t, lin])
@@ -104,6 +104,8 @@ class RerunConverges(FlowBase):
             # handled only by an engine command (noop/fail) may be (the statement does not say)
             optional = [list(x) for x in g["handled_terminal"] + g.get("failed_any", []) if list(x) not in keep]
             optional = [x for i, x in enumerate(optional) if x not in optional[:i]]
+            # an execution downstream of one that is re-executed anyway follows from it
+            optional = [x for x in optional if not any(self._downstream(x, k) for k in keep)]
         for (t, lin) in keep + optional:
             last = g["last"].get(rm.lkey(t, lin))
             ctx = last[0] if last else None
@@ -117,6 +119,19 @@ class RerunConverges(FlowBase):
         g["handled_terminal"] = [u for u in g["handled_terminal"] if u not in optional]
         return []
 
+    def _downstream(self, x, k):
+        """execution x = [task, lineage] follows from execution k (same branch of the same run)."""
+        reach = self._reach(k[0])
+        if x[0] not in reach:
+            return False
+        if x[1][: len(k[1])] != k[1]:
+            return False
+        for tid in x[1][len(k[1]):]:
+            src = tid.rsplit("__t", 1)[0]
+            if src != k[0] and src not in reach:
+                return False
+        return True
+
     def _reset_downstream(self, g, t, lin):
         # joins downstream (on the same lineage) will be satisfied again by the new executions
         for k, a in g["arr"].items():
@@ -127,6 +142,15 @@ class RerunConverges(FlowBase):
                 a["pending"] = False
                 a["from"] = [x for x in a["from"] if x[0] != t and x[0] not in self._reach(t)]
         g["fatal"] = [f for f in g["fatal"] if not f.endswith(" %s" % t)]
+        # failures of the previous execution's descendants are superseded by the re-execution
+        for name in ("unhandled", "handled_terminal", "failed_any"):
+            kept = []
+            for u in g.get(name, []):
+                if self._downstream(u, [t, lin]):
+                    g["fatal"] = [f for f in g["fatal"] if not f.endswith(" %s" % u[0])]
+                    continue
+                kept.append(u)
+            g[name] = kept
 
     def check_offer(self, g, offer, run, consumed, post):
         if consumed and g.get("rr") is not None and g.get("last_consumed_optional"):
